@@ -1,168 +1,16 @@
 package ipfscluster
 
 import (
-	"context"
 	"time"
 
-	"github.com/ipfs/ipfs-cluster/allocator/descendalloc"
 	"github.com/ipfs/ipfs-cluster/api"
 
-	cid "github.com/ipfs/go-cid"
-	peer "github.com/libp2p/go-libp2p-core/peer"
-	multiaddr "github.com/multiformats/go-multiaddr"
 )
 
 var vrfEntries = map[string]func(){
 	"VrfC04Pin":    VrfC04Pin,
 	"VrfC04Unpin":  VrfC04Unpin,
 	"VrfC04Update": VrfC04Update,
-}
-
-var vrfMetaKeys = []string{"k1", "k2"}
-
-// vrfFactorsValid is the documented validity rule for a replication-factor
-// pair, written without control flow: both -1, or 1 <= min <= max.
-func vrfFactorsValid(min, max int) bool {
-	return vrf_or(vrf_and(min == -1, max == -1), vrf_and(min >= 1, max >= min))
-}
-
-// vrfSymbolicOptions draws pin options from: any name, both modes, any valid
-// or unset factor pair (or any pair at all when anyFactors), a zero or arbitrary
-// expiry (>= 1 s away from now), metadata over two fixed non-empty keys with
-// arbitrary values, user allocations a subset of the first two peers.
-func vrfSymbolicOptions(now int64, anyFactors bool) api.PinOptions {
-	var o api.PinOptions
-	o.Name = vrf_nondet_string("name")
-	mode := vrf_nondet_int("mode")
-	vrf_assume(vrf_or(mode == 0, mode == 1))
-	o.Mode = api.PinMode(mode)
-	o.ReplicationFactorMin = vrf_nondet_int("rmin")
-	o.ReplicationFactorMax = vrf_nondet_int("rmax")
-	if !anyFactors {
-		unset := vrf_and(o.ReplicationFactorMin == 0, o.ReplicationFactorMax == 0)
-		vrf_assume(vrf_or(unset, vrfFactorsValid(o.ReplicationFactorMin, o.ReplicationFactorMax)))
-	}
-	if vrf_param("expiry") == 1 && vrf_choice("has_expiry", 2) == 1 {
-		delta := vrf_nondet_int64("expire_minus_now")
-		vrf_assume(vrf_or(delta <= -vrfSecond, delta >= vrfSecond))
-		vrf_assume(vrf_and(delta > -vrfSecond*1000000, delta < vrfSecond*1000000))
-		o.ExpireAt = time.Unix(0, now+delta)
-	}
-	for _, k := range vrfMetaKeys[:vrf_param("meta_keys")] {
-		if vrf_choice("has_meta_"+k, 2) == 1 {
-			if o.Metadata == nil {
-				o.Metadata = map[string]string{}
-			}
-			o.Metadata[k] = vrf_nondet_string("meta_" + k)
-		}
-	}
-	for i := 0; i < vrf_param("origins"); i++ {
-		if vrf_choice("has_origin", 2) == 1 {
-			o.Origins = append(o.Origins, vrfOrigin(i))
-		}
-	}
-	if vrf_param("user_allocs") == 1 {
-		for i := 0; i < 2; i++ {
-			if vrf_choice("user_alloc", 2) == 1 {
-				o.UserAllocations = append(o.UserAllocations, vrfPeerNames[i])
-			}
-		}
-	}
-	return o
-}
-
-var vrfOriginStrs = []string{
-	"/ip4/1.2.3.4/tcp/4001/p2p/QmZHKZDavkvNfA9gSAg7HALv8jF7BJaKjUc9U2LSuvUySB",
-	"/dns4/example.org/tcp/4001/p2p/QmP63DkAFEnDYNjDYBpyNDfttu1fvUw99x1brscPzpqmmq",
-}
-
-// vrfMaddr is a minimal multiaddr.Multiaddr: an origin is identified by its text
-type vrfMaddr struct{ s string }
-
-func (a *vrfMaddr) MarshalJSON() ([]byte, error)     { return []byte(`"` + a.s + `"`), nil }
-func (a *vrfMaddr) UnmarshalJSON([]byte) error        { return nil }
-func (a *vrfMaddr) MarshalText() ([]byte, error)      { return []byte(a.s), nil }
-func (a *vrfMaddr) UnmarshalText([]byte) error        { return nil }
-func (a *vrfMaddr) MarshalBinary() ([]byte, error)    { return []byte(a.s), nil }
-func (a *vrfMaddr) UnmarshalBinary([]byte) error      { return nil }
-func (a *vrfMaddr) Equal(b multiaddr.Multiaddr) bool  { return b != nil && a.s == b.String() }
-func (a *vrfMaddr) Bytes() []byte                     { return []byte(a.s) }
-func (a *vrfMaddr) String() string                    { return a.s }
-func (a *vrfMaddr) Protocols() []multiaddr.Protocol   { return nil }
-func (a *vrfMaddr) Encapsulate(multiaddr.Multiaddr) multiaddr.Multiaddr { return a }
-func (a *vrfMaddr) Decapsulate(multiaddr.Multiaddr) multiaddr.Multiaddr { return a }
-func (a *vrfMaddr) ValueForProtocol(int) (string, error) { return "", nil }
-
-func vrfOrigin(i int) multiaddr.Multiaddr { return &vrfMaddr{vrfOriginStrs[i]} }
-
-func vrfOriginsEqual(a, b []multiaddr.Multiaddr) bool {
-	if len(a) != len(b) {
-		return false
-	}
-	for i := range a {
-		if !a[i].Equal(b[i]) {
-			return false
-		}
-	}
-	return true
-}
-
-func vrfMetaEqual(a, b map[string]string) bool {
-	for _, k := range vrfMetaKeys {
-		va, oka := a[k]
-		vb, okb := b[k]
-		if oka != okb {
-			return false
-		}
-		if oka && va != vb {
-			return false
-		}
-	}
-	return true
-}
-
-func vrfPeersEqual(a, b []peer.ID) bool {
-	if len(a) != len(b) {
-		return false
-	}
-	for i := range a {
-		if a[i] != b[i] {
-			return false
-		}
-	}
-	return true
-}
-
-func vrfNewCluster(n int, cons *vrfConsensus, mon *vrfMonitor) *Cluster {
-	cfg := &Config{}
-	cfg.ReplicationFactorMin = vrf_nondet_int("default_rmin")
-	cfg.ReplicationFactorMax = vrf_nondet_int("default_rmax")
-	// the configuration is validated at start-up (Config.Validate)
-	vrf_assume(vrfFactorsValid(cfg.ReplicationFactorMin, cfg.ReplicationFactorMax))
-	cfg.FollowerMode = vrf_nondet_bool("follower")
-	return &Cluster{ctx: context.Background(), config: cfg, monitor: mon, consensus: cons,
-		ipfs: &vrfIPFS{}, allocator: descendalloc.NewAllocator(), informers: []Informer{&vrfInformer{"freespace"}}}
-}
-
-// vrfExistingPin builds an arbitrary well-formed stored pin for ci.
-func vrfExistingPin(ci cid.Cid, now int64, n int) *api.Pin {
-	p := api.PinWithOpts(ci, vrfSymbolicOptions(now, false))
-	t := vrf_nondet_uint64("existing_type")
-	vrf_assume(vrf_or(vrf_or(t == uint64(api.DataType), t == uint64(api.MetaType)), vrf_or(t == uint64(api.ShardType), t == uint64(api.ClusterDAGType))))
-	p.Type = api.PinType(t)
-	// stored pins always carry effective factors
-	vrf_assume(vrfFactorsValid(p.ReplicationFactorMin, p.ReplicationFactorMax))
-	p.UserAllocations = nil // transient, never stored
-	if p.ReplicationFactorMin > 0 {
-		for i := 0; i < n; i++ {
-			if vrf_choice("existing_alloc", 2) == 1 {
-				p.Allocations = append(p.Allocations, vrfPeerNames[i])
-			}
-		}
-		// representation invariant of stored pins: min <= #allocations <= max
-		vrf_assume(vrf_and(p.ReplicationFactorMin <= len(p.Allocations), len(p.Allocations) <= p.ReplicationFactorMax))
-	}
-	return p
 }
 
 func VrfC04Pin() {
